@@ -28,6 +28,7 @@ def run(ctx):
     ctx.each(c06.scenario_partition, ctx, repo, "R09c")
     ctx.each(r09d, ctx, repo, T)
     ctx.each(r09e, ctx, repo)
+    ctx.each(r09f, ctx, repo)
     ctx.rule("R01d", "update(ti) reads step ti-1 and writes step ti (see C01); shared here because a read at ti inside update() would let a flow act one step early")
     ctx.each(c01.r01d, ctx, repo, T)
 
@@ -225,3 +226,42 @@ def r09e(ctx, repo):
                 ok = f.qualname == "Parameter.__init__" or f.module.name.endswith("migration")
                 ctx.check(ok, "R09e", f, s, "interpolation method set at construction / migration only", "`%s` in %s changes the interpolation method shared by every population of the parameter: values of populations nobody asked to change are re-interpolated over the whole run" % (norm(s)[:70], f.qualname))
     ctx.require(n >= 1, "R09e: no assignment of _interpolation_method found")
+
+
+def r09f(ctx, repo):
+    from .c08 import engines
+
+    ctx.rule("R09f", "a scenario is built on copies (effect summaries): get_parset / get_progset / get_instructions of every Scenario class mutate neither the parameter set / program set handed in nor the scenario object itself, so the baseline they were derived from - and a second run of the same scenario - are unchanged; the constructors and ParameterScenario.add keep their own copies of the values handed in")
+    T, cg, E = engines(repo)
+    n = 0
+    for ci in repo.module("scenarios").classes.values():
+        for name in ("get_parset", "get_progset", "get_instructions"):
+            fi = ci.methods.get(name)
+            if fi is None:
+                continue
+            for p in fi.params:
+                if p not in (fi.params[0], "parset", "progset"):
+                    continue
+                n += 1
+                if E.mutates(fi, p):
+                    chain = E.explain(fi, p)
+                    ctx.fail("R09f", fi, fi.node, "%s.%s changes its `%s` in place: %s - the baseline (or the scenario definition) is altered by running the scenario" % (ci.name, name, p, "  ->  ".join(chain)[:300]), stmt_text="mutates:%s" % p)
+                else:
+                    ctx.ok("R09f", fi, "%s.%s leaves `%s` untouched" % (ci.name, name, p))
+    ctx.require(n >= 10, "R09f: fewer scenario builder methods (%d) than confirmed" % n)
+    # values handed to the constructors are copied
+    for cname, pname in (("ParameterScenario", "scenario_values"), ("BudgetScenario", "alloc"), ("CoverageScenario", "coverage")):
+        fi = repo.func("scenarios", "%s.__init__" % cname)
+        ctx.require(pname in fi.params, "R09f: %s.__init__ lost its parameter `%s`" % (cname, pname))
+        uses = [x for x in ast.walk(fi.node) if isinstance(x, ast.Name) and x.id == pname and isinstance(x.ctx, ast.Load)]
+        bad = []
+        for u in uses:
+            par = getattr(u, "_parent", None)
+            if isinstance(par, ast.Compare):
+                continue
+            if isinstance(par, ast.Call) and ast.unparse(par.func) in ("sc.dcp", "dcp", "copy.deepcopy"):
+                continue
+            if isinstance(par, ast.keyword) or (isinstance(par, ast.Call) and ast.unparse(par.func).endswith("__init__")):
+                continue  # forwarded to the base constructor
+            bad.append(u)
+        ctx.check(not bad, "R09f", fi, enclosing_stmt(bad[0]) if bad else fi.node, "%s keeps a deep copy of `%s`" % (cname, pname), "%s.__init__ stores `%s` without a deep copy: editing the caller's object afterwards changes the scenario (and the scenario's own edits change the caller's object)" % (cname, pname), stmt_text="ctor-copy:%s" % pname)
